@@ -269,6 +269,9 @@ func checkJoinPoints(res *CaseResult, which string, m *jpMonitor, sh *shadowLog,
 		}
 		expected := f.callLike && f.info.codeLen > 0 && f.info.jpOn && !f.info.precomp
 		where := fmt.Sprintf("frame %s", f.enter.Short())
+		if which == "C06" {
+			checkReportedGas(res, fail, m, f, sh, where, expected)
+		}
 		if !expected {
 			if len(f.firings) > 0 {
 				why := "not a message call that runs contract code"
@@ -468,6 +471,40 @@ func checkPayload(res *CaseResult, which string, fail func(prop, rule, msg strin
 		}
 		if len(ret) != 0 {
 			fail("C05", "payload-ret", fmt.Sprintf("post join point received return data %x for a callee that halted exceptionally (it returned nothing)", clipB(ret)), where)
+		}
+	}
+}
+
+// checkReportedGas applies to EVERY frame, join points or not: what the frame hands back never exceeds what it was
+// given; a frame no join point surrounds hands back exactly what its own code left (0 on an exceptional halt); and
+// the call tree reports as the frame's remaining gas exactly what the caller received.
+func checkReportedGas(res *CaseResult, fail func(prop, rule, msg string, det ...string), m *jpMonitor, f *jpFrame, sh *shadowLog, where string, surrounded bool) {
+	if f.idx < 0 || f.idx >= len(sh.Attempts) {
+		return
+	}
+	att := sh.Attempts[f.idx]
+	if !att.LeftOK {
+		return
+	}
+	if att.Left > f.enter.Gas {
+		fail("C06", "returns-more-than-given", fmt.Sprintf("frame handed back %d gas of %d given", att.Left, f.enter.Gas), where)
+	}
+	if node := m.fs.EVM.Tracer().CallTree().FindCall(uint64(f.idx)); node != nil {
+		res.Count("reported_gas_checked", 1)
+		if node.RemainingGas != att.Left {
+			fail("C06", "misreported-remaining-gas", fmt.Sprintf("the call tree reports %d gas remaining for a frame that handed %d back to its caller", node.RemainingGas, att.Left), where)
+		}
+	}
+	if !surrounded && f.callLike && len(f.firings) == 0 && f.nsteps > 0 {
+		if endGas, _, endErr, ok := calleeEnd(f); ok {
+			want := endGas
+			if endErr != "" && endErr != avm.ErrExecutionReverted.Error() {
+				want = 0
+			}
+			res.Count("plain_frame_gas_checked", 1)
+			if att.Left != want {
+				fail("C06", "plain-frame-gas", fmt.Sprintf("a frame no join point surrounds handed back %d gas although its code ended with %d", att.Left, endGas), where)
+			}
 		}
 	}
 }
@@ -807,6 +844,10 @@ func jpWorkload(c Case, which string, res *CaseResult) {
 		for _, b := range []byte{1, 2, 3, 4, 5, 6, 7, 8, 9, 0x0a, 0x64, 0x65, 0x66, 0x67} {
 			addrs = append(addrs, common.BytesToAddress([]byte{b}))
 		}
+		nPlanted := len(addrs)
+		// code-less accounts of every flavour (funded, with a nonce, empty, missing, funded by this very call): no join
+		// point runs for them although Aspects are bound to their addresses
+		addrs = append(addrs, h.EOARich, h.EOAPoor, h.EmptyAcct, h.Nobody, common.BytesToAddress([]byte{0xd1, byte(c.Seed)}))
 		for i, a := range addrs {
 			var id common.Address
 			id[0], id[18], id[19] = 0xa5, 0x11, byte(i)
@@ -815,13 +856,13 @@ func jpWorkload(c Case, which string, res *CaseResult) {
 			kind := []byte{h.CALL, h.CALL, h.STATICCALL, h.DELEGATECALL, h.CALLCODE}[(int(c.Seed>>9)+i)%5]
 			top.PushU(32).PushU(0x200).PushU(uint64((int(c.Seed>>5) + i*37) % 200)).PushU(0)
 			if kind == h.CALL || kind == h.CALLCODE {
-				top.PushU(0)
+				top.PushU(uint64(i % 2)) // (every other one carries value)
 			}
 			top.PushAddr(a).PushU(60000).Op(kind, h.POP)
 		}
 		top.Op(h.STOP)
 		w := h.BaseWorld([][]byte{top.Bytes()})
-		for _, a := range addrs {
+		for _, a := range addrs[:nPlanted] {
 			w.Set(h.Acct{Addr: a, Balance: big.NewInt(1), Nonce: 1, Code: planted})
 		}
 		s11 := &scenario{Fork: fork, NContract: 1, World: w, Tx: h.TxSpec{Entry: h.ECall, From: h.Sender, To: h.ContractAddr(0), Input: []byte{3}, Gas: 3_000_000, Value: new(big.Int)}}
